@@ -12,12 +12,12 @@ use super::Meta;
 pub const META: Meta = Meta {
     rule: "(pairs, exhaustive) every ordered pair of the 18 binary operators * / % + - << >> & ^ | == != < > <= >= && || in both nesting positions ((a op1 b) op2 c and a op1 (b op2 c)) x 12 leaf \
 assignments (small ints and booleans, chosen so that arithmetic, bitwise, relational and logical groupings type-check); every prefix operator ! - ~ x binary operator in both positions; prefix x postfix \
-(index, call) and postfix x binary; assignment chains a = b = e and a = e1 op e2; (triples, thorough) every operator triple in all 5 tree shapes; (random, proptest) trees to depth 4. \
+(index, call) and postfix x binary; assignment chains a = b = e and a = e1 op e2; (contexts) every operator pair again inside ten surroundings that put the parser into another mode first (after a match with `_`, `|` and range patterns, as the body of a default / range / or-pattern arm, in a function body, an if branch, after a match inside an array literal): the grouping must not depend on the surrounding; (triples, thorough) every operator triple in all 5 tree shapes; (random, proptest) trees to depth 4. \
 Each tree is rendered (1) with only the parentheses the documented table (docs/language/expression-precedence.md, transcribed into the harness) requires and (2) fully parenthesised; both texts go through \
 the real pipeline and must give the same outcome (value, or runtime error). Non-trivial: the harness's evaluator finds a wrong grouping of the same token sequence (one rotation of the tree) whose outcome \
 differs from the intended one, i.e. the case can tell a precedence/associativity bug from none. Distinct by minimal text.",
     assumptions: &["metamorphic relation between two runs of p2sh: a defect changing both texts identically is invisible here (C02/C09 cover the absolute side)", "precedence table transcribed from docs/language/expression-precedence.md"],
-    required_classes: &[("pairs", 5_000), ("prefix", 100), ("postfix", 50), ("assign", 20), ("random", 5_000), ("nontrivial", 3_000)],
+    required_classes: &[("pairs", 5_000), ("prefix", 100), ("postfix", 50), ("assign", 20), ("random", 5_000), ("nontrivial", 3_000), ("context", 50_000)],
     exhaustive_when_sections: &["pairs", "prefix", "postfix", "assign"],
 };
 
@@ -331,6 +331,91 @@ fn pairs(ctx: &mut Ctx) {
     ctx.exhaustive("pairs");
 }
 
+/// Surroundings in which an expression is parsed by the same parser instance after (or inside) constructs that
+/// switch the parser into another mode: match patterns (`|`, `..`, `_`), arm bodies, function and block bodies.
+/// (pre, open, close): the program is PRELUDE + pre + `let r = [` + open + TEXT + close + `, 0]; [r[0], x, y, z]`.
+const CONTEXTS: &[(&str, &str, &str, &str)] = &[
+    ("after-match-default", "let pre = match 2 { 1 => 10, _ => 20 };\n", "", ""),
+    ("after-fn-with-match", "fn cls(n) { match n { 0..5 => \"s\", 7 | 9 => \"o\", _ => \"x\" } }\n", "", ""),
+    ("after-match-or-pattern", "let pre = match 3 { 1 | 3 => 1, 4..=6 => 2 };\n", "", ""),
+    ("default-arm-body", "", "match 99 { 1 => 0, _ => ", " }"),
+    ("range-arm-body", "", "match 4 { 1..9 => ", ", _ => 0 }"),
+    ("or-arm-body", "", "match 4 { 3 | 4 => ", ", _ => 0 }"),
+    ("arm-block-body", "", "match 4 { 3 | 4 => { ", " } _ => { 0 } }"),
+    ("fn-body", "", "fn() { ", " }()"),
+    ("call-argument", "", "inc(inc)(", ")"),
+    ("after-match-in-array", "", "[match 1 { _ => 5 }, ", "][1]"),
+    ("if-branch", "", "if 1 < 2 { ", " } else { 0 }"),
+];
+
+fn in_context(k: usize, text: &str) -> String {
+    let (_, pre, open, close) = CONTEXTS[k];
+    format!("{}{}let r = [{}{}{}, 0]; [r[0], x, y, z]", PRELUDE, pre, open, text, close)
+}
+
+fn outcome_of(src: &str) -> Out {
+    match run_text(src) {
+        Outcome::Ran(r) => match r.err {
+            Some(_) => Out::Error,
+            None => Out::Value(r.last.show()),
+        },
+        Outcome::Panic(p) => Out::Other(format!("PANIC {}", p.signature())),
+        o => Out::Other(o.tag()),
+    }
+}
+
+/// the grouping of an expression does not depend on what the parser has seen before it
+fn contexts(ctx: &mut Ctx) {
+    let mut idx = 0u64;
+    for op1 in BIN {
+        for op2 in BIN {
+            for ls in leafsets() {
+                for shape in 0..2 {
+                    idx += 1;
+                    if !ctx.mine(idx) {
+                        continue;
+                    }
+                    let [a, b, c] = ls.clone();
+                    let e = if shape == 0 { bin(op2, bin(op1, a, b), c) } else { bin(op1, a, bin(op2, b, c)) };
+                    let min = min_render(&e);
+                    let full = full_render(&e);
+                    // a call argument that is not a function only tells groupings apart by the error: leave it to the others
+                    for k in 0..CONTEXTS.len() {
+                        if CONTEXTS[k].0 == "call-argument" {
+                            continue;
+                        }
+                        let (smin, sfull) = (in_context(k, &min), in_context(k, &full));
+                        guard("contexts", "src", &smin);
+                        let (oa, ob) = (outcome_of(&smin), outcome_of(&sfull));
+                        ctx.case(hash_str(&smin), min != full);
+                        ctx.class("context");
+                        if ctx.want_sample() && ctx.res.evals % 1009 == 7 {
+                            ctx.sample(json!({"context": CONTEXTS[k].0, "minimal": smin, "outcome": format!("{:?}", oa)}));
+                        }
+                        // only groupings are judged here: a surrounding that does not take the bare text at all is not this section's business
+                        if matches!(oa, Out::Other(_)) || matches!(ob, Out::Other(_)) {
+                            if let Out::Other(t) = &oa {
+                                if t.starts_with("PANIC ") {
+                                    ctx.report(Violation::new("contexts", t[6..].to_string(), format!("`{}` crashed", smin), json!({"tree": e, "context": k})));
+                                }
+                            }
+                            continue;
+                        }
+                        if oa != ob {
+                            ctx.report(Violation::new(
+                                "contexts",
+                                format!("grouping-in-context:{}:{},{}", CONTEXTS[k].0, op1, op2),
+                                format!("in the surrounding `{}` the text `{}` evaluates to {:?} but the fully parenthesised `{}` evaluates to {:?}", CONTEXTS[k].0, min, oa, full, ob),
+                                json!({"tree": e, "context": k}),
+                            ));
+                        }
+                    }
+                }
+            }
+        }
+    }
+}
+
 fn prefix_postfix_assign(ctx: &mut Ctx) {
     let mut idx = 0u64;
     let leaves = [E::Int(7), E::Int(2), E::Bool(true), E::Int(0)];
@@ -474,6 +559,7 @@ fn rand_tree(c: &mut Choices, depth: usize) -> E {
 
 pub fn run(ctx: &mut Ctx) {
     pairs(ctx);
+    contexts(ctx);
     prefix_postfix_assign(ctx);
     if ctx.tier == Tier::Thorough {
         triples(ctx);
@@ -489,6 +575,14 @@ pub fn run(ctx: &mut Ctx) {
 
 pub fn replay(section: &str, case: &Value, ctx: &mut Ctx) {
     match serde_json::from_value::<E>(case["tree"].clone()) {
+        Ok(e) if case.get("context").is_some() => {
+            let k = (case["context"].as_u64().unwrap_or(0) as usize).min(CONTEXTS.len() - 1);
+            let (smin, sfull) = (in_context(k, &min_render(&e)), in_context(k, &full_render(&e)));
+            let (oa, ob) = (outcome_of(&smin), outcome_of(&sfull));
+            if !matches!(oa, Out::Other(_)) && !matches!(ob, Out::Other(_)) && oa != ob {
+                ctx.report(Violation::new("contexts", format!("grouping-in-context:{}", CONTEXTS[k].0), format!("`{}`: {:?} vs {:?}", smin, oa, ob), case.clone()));
+            }
+        }
         Ok(e) => {
             for v in check_tree(ctx, section, "replay", &e) {
                 ctx.report(v);
